@@ -1,4 +1,5 @@
 import CoapVerif.Lemmas.Block
+import CoapVerif.Lemmas.BlockRecv
 /-
 C09 — block-wise transfer: the sender's body arrives intact, once, or the transfer fails explicitly.
 
@@ -130,6 +131,46 @@ theorem setup_payload_fits (maxSize tokOpts num blk total : Nat) (b : BlockB)
     (h : setupBlockB maxSize tokOpts num blk total = some b) :
     min b.chunk (total - blockOffset num blk) ≤ maxSize - tokOpts :=
   (setup_sound maxSize tokOpts num blk total b hsz htok hstart htot h).2.2.2.2.2
+
+/-! ## Layer B, receiver side (COAP_BLOCK_SINGLE_BODY Block1 receive path of coap_handle_request_put_block)
+
+Full statements that are NOT proved (kept here as the target):
+  never_wrong_body            — for the composed system client ∘ network ∘ server under every schedule, anything a
+                                handler receives is the sender's body / its slices (Block1 and Block2, both modes).
+  at_most_once_per_transfer   — at most one delivery per transfer under every schedule.
+What is proved below is the receiver automaton `srcvStep` alone (transcribed from the C, tied by the `srcv`/`srcv2` ops):
+the sender side (lg_xmit, retransmission, token substitution), the client's Block2 receive path
+(coap_handle_response_get_block), per-block mode, Q-Block, BERT and Block+Observe are outside; they are trace-checked only.
+-/
+
+/-- For EVERY sequence of received Block1 datagrams — any order, any duplicates, any losses, any mix of block sizes not
+below the tracked one, early size reduction by the server (`maxBlk`), with or without Size1 — in which every datagram
+carries the sender's slice for its NUM/SZX and the right More bit: whatever the receiver hands to the application is
+exactly the sender's body, with its exact length. -/
+theorem never_wrong_body_partial (cap : Nat) (junk : UInt8) (maxBlk : Nat) (body : Bytes) (ds : List Dgram)
+    (hlen : body.length < 2 ^ 31) (hadm : Admissible cap junk maxBlk body none ds) :
+    ∀ o, o ∈ runSrcv cap junk maxBlk none ds → ∀ b l, o = SrcvOut.deliver b l → b = body ∧ l = body.length :=
+  runSrcv_sound cap junk maxBlk body hlen ds none (by intro s hs; cases hs) hadm
+
+/-- At most once per lg_srcv lifetime: a delivery of a block-wise body releases the receiver state (the step returns
+`none`), so a second delivery needs a new lg_srcv in which every block has been recorded again; all other steps keep a
+state that is consistent with the sender's body (`SrcvInv`). -/
+theorem at_most_once_per_transfer_partial (cap : Nat) (junk : UInt8) (maxBlk : Nat) (body : Bytes) (st : Option Srcv)
+    (d : Dgram) (hst : ∀ s, st = some s → SrcvInv cap body s) (hg : Genuine body st d) (hlen : body.length < 2 ^ 31) :
+    let r := srcvStep cap junk maxBlk st d.num d.m d.szx d.payload d.size1
+    (∀ s', r.1 = some s' → SrcvInv cap body s') ∧
+    (∀ b l, r.2 = SrcvOut.deliver b l → ¬ (d.num = 0 ∧ d.m = 0) → r.1 = none) := by
+  intro r
+  have h := srcvStep_spec cap junk maxBlk body st d r.1 r.2 hst hg hlen rfl
+  exact ⟨h.1, fun b l hb hn => (h.2 b l hb).2.2 hn⟩
+
+/-- without the no_more_seen gate (the code before fix 57e6aff) the first block of a body without Size1 was "complete":
+the fixed automaton answers 2.31 instead -/
+example : (srcvStep 4 0 0 none 0 1 0 (List.replicate 16 7) none).2 = SrcvOut.cont := by decide
+
+set_option maxRecDepth 8000 in
+/-- early size reduction (fix 0d17941): a 64-byte first block is recorded as 2 blocks of 32 -/
+example : ((srcvStep 4 0 1 none 0 1 2 (List.replicate 64 7) none).1.map (·.recv)) = some [(0, 1)] := by decide
 
 /-! non-vacuity: concrete instances of the hypotheses -/
 example : setupBlockB 64 6 3 6 5000 = some { num := 96, m := 1, szx := 1, aszx := 1, chunk := 32 } := by decide
